@@ -272,6 +272,7 @@ func (c *ProcCase) Main() {
 	var idle simlog.Cell // 1 while the answerer has nothing it intends to do
 	idle.Set(1)
 	cancelled := make(chan struct{})
+	var isCancelled simlog.Cell
 
 	// observer
 	obsDone := make(chan struct{})
@@ -289,11 +290,14 @@ func (c *ProcCase) Main() {
 				seq[a]++
 				if tt.Context().Err() != nil {
 					L.Add("req-cancelled", a, "", seq[a])
+				} else if isCancelled.Get() == 1 {
+					L.Add("req-live-after-cancel", a, "", seq[a])
 				}
 				reqs <- pendingReq{tt: tt, act: a, seq: seq[a]}
 			}
 			if c.CancelAt > 0 && n == c.CancelAt {
 				L.Add("cancel", "", "", n)
+				isCancelled.Set(1)
 				cancel()
 				close(cancelled)
 			}
@@ -533,6 +537,7 @@ func (c *ProcCase) Main() {
 	case <-cancelled:
 	default:
 		L.Add("cancel", "", "", 0)
+		isCancelled.Set(1)
 		cancel()
 	}
 	close(stop)
